@@ -1,4 +1,8 @@
-(** Hand-written model of [CellID.faceIJOrientation] (s2/cellid.go).
+(** Level-by-level specification of [CellID.faceIJOrientation] (s2/cellid.go).
+    Since the merge with C01 the Go function itself is translated (Gen/CellIDFull.v, lookup
+    tables from Model/CellIDTables.v); Proofs/C12_Bridge.v proves, for every uint64 id,
+    s2_CellID_faceIJOrientation c = hd_faceIJOrientation c, so this file is a proof device,
+    no longer part of the trusted model.
 
     The Go function walks the 1024-entry table [lookupIJ] that [init()] fills at
     start-up by [initLookupCell]; 8 table steps of 4 levels each.  [initLookupCell]
@@ -39,35 +43,9 @@ Fixpoint hd_state (n : nat) (x : Z) : Z * Z * Z :=
     are decoded (for a non-leaf cell the trailing "10 00 .. 00" pairs are decoded as
     levels too, which lands on a leaf next to the cell centre), then the orientation
     is corrected for the parity of the trailing "00" pairs. *)
-Definition s2_CellID_faceIJOrientation (v_ci : Z) : Z * Z * Z * Z :=
+Definition hd_faceIJOrientation (v_ci : Z) : Z * Z * Z * Z :=
   let '(i, j, o) := hd_state 30 (Z.shiftr v_ci 1) in
   let lsb := Z.land v_ci (- v_ci) in
   let o := if Z.eqb (Z.land lsb 1229782938247303440) 0 then o else Z.lxor o 1 in
   (Z.shiftr v_ci 61, i, j, o).
 
-(** * The other direction: [cellIDFromFaceIJ] (s2/cellid.go), which walks the table
-    [lookupPos] (also filled by [initLookupCell]).  Level by level, from the most
-    significant bit of (i,j): the sub-square ij = 2*bit_i + bit_j of the current
-    orientation is the [ijToPos[o][ij]]-th along the curve.  State = (face followed by
-    the position digits so far, orientation).  Tied to the Go function by correspondence;
-    Proofs/C12_Contain.v proves decode (encode f i j) = (f, i, j). *)
-Definition hd_ijToPos : list (list Z) :=
-  [[0; 1; 3; 2]; [0; 3; 1; 2]; [2; 3; 1; 0]; [2; 1; 3; 0]].
-
-Definition he_step (st : Z * Z) (ij : Z) : Z * Z :=
-  let '(n, o) := st in
-  let d := nthZ (nthZ hd_ijToPos o []) ij 0 in
-  (4 * n + d, Z.lxor o (nthZ hd_posToOrientation d 0)).
-
-Fixpoint he_state (n : nat) (f i j : Z) : Z * Z :=
-  match n with
-  | O => (f, Z.land f 1)
-  | S n' => he_step (he_state n' f (Z.shiftr i 1) (Z.shiftr j 1)) (2 * Z.land i 1 + Z.land j 1)
-  end.
-
-(** Domain: 0 <= f < 6 and 0 <= i, j < 2^30 (what cellIDFromPoint passes after stToIJ's
-    clamp).  Outside it the Go loop also reads bits 30 and 31 of i and j and ORs the
-    result over the face bits; the model ignores them and is not claimed there. *)
-Definition s2_cellIDFromFaceIJ (v_f v_i v_j : Z) : Z :=
-  let '(n, _) := he_state 30 v_f v_i v_j in
-  wrap_u64 (2 * n + 1).
